@@ -283,6 +283,75 @@ Proof.
     apply (DIc_stored d (src_content d) _ _ HDI).
 Qed.
 
+(* ---- import_, fault-free at top level (it FAILS for a dataset that is already located, and its rollback deletes the
+   artifact: DI survives, the artifact does not -- Props/C07.v import_atomic_refuted_reimport) *)
+Definition imp_guard (d : N) (s : st) : bool := negb (mem d (loc (cur s))) && negb (mem d (recs (cur s))).
+Definition imp_chain (d : N) : act :=
+  ev ret ;; ev (upd (fun s => set_fs (fset d (src_content d) (fs s)) s)) ;; reg_undo (URm d) ;; ev ret ;;
+  ev (guard (imp_guard d) ;; stored_rows d).
+Definition imp_body (d : N) : act :=
+  ev (guard (fun s => negb (has_ds d s) || mem d (xf (cur s)))) ;;
+  upd (on_cur (fun x => up_xf (add d) (up_ds (add d) x))) ;; with_ds shipped (imp_chain d).
+
+Lemma FMo_imp_body : forall d, FMo (imp_body d).
+Proof.
+  intro d. unfold imp_body, imp_chain, stored_rows.
+  repeat first [ apply FMo_bind | apply FMo_ev | apply FMo_ret | apply FMo_guard | apply FMo_with_ds | apply FMo_reg_undo
+               | (apply FMo_upd; intro; reflexivity) ].
+Qed.
+
+Lemma WB_imp_body : forall d, WB (imp_body d).
+Proof.
+  intro d. unfold imp_body, imp_chain.
+  repeat first [ apply WB_bind | apply WB_ev | apply WB_ret | apply WB_guard | apply WB_with_ds | apply WB_reg_undo
+               | apply WB_stored_rows | (apply WB_upd; keeps) ].
+Qed.
+
+Lemma imp_chain_nf : forall d b l r0, fuse b = None -> ptr b = l :: r0 ->
+  imp_chain d b =
+  (if imp_guard d b
+   then (on_cur (stored d) (set_ptr ((URm d :: l) :: r0) (set_fs (fset d (src_content d) (fs b)) b)), Normal)
+   else (set_ptr ((URm d :: l) :: r0) (set_fs (fset d (src_content d) (fs b)) b), Raised false)).
+Proof.
+  intros d b l r0 F P. unfold imp_chain. unfold bind at 1. rewrite (ev_nf _ b F). unfold ret.
+  unfold bind at 1. rewrite (ev_nf _ b F). unfold upd at 1.
+  set (b1 := set_fs (fset d (src_content d) (fs b)) b). assert (F1 : fuse b1 = None) by exact F.
+  unfold bind at 1. unfold reg_undo. assert (P1 : ptr b1 = l :: r0) by exact P. rewrite P1.
+  set (b2 := set_ptr ((URm d :: l) :: r0) b1). assert (F2 : fuse b2 = None) by exact F.
+  unfold bind at 1. rewrite (ev_nf _ b2 F2). rewrite (ev_nf _ b2 F2).
+  unfold bind, guard. assert (G : imp_guard d b2 = imp_guard d b) by reflexivity. rewrite G.
+  destruct (imp_guard d b); reflexivity.
+Qed.
+
+Lemma frm_fset_shrink : forall d v f x, fget x (frm d (fset d v f)) <> None -> fget x (frm d (fset d v f)) = fget x f.
+Proof. intros d v f x X. rewrite fget_frm, fget_fset in *. destruct (x =? d); [exfalso; apply X; reflexivity | reflexivity]. Qed.
+
+Lemma import_nofault_DI : forall d s s' r, fuse s = None -> sql s = [] -> ptr s = [] -> DI s ->
+  exec_op shipped (ImportDs d) s = (s', r) -> DI s' /\ sql s' = [] /\ ptr s' = [] /\ fuse s' = None.
+Proof.
+  intros d s s' r F Q P HDI H. simpl in H. change (do_import shipped d) with (butler_txn shipped (imp_body d)) in H.
+  rewrite (butler_txn_nf _ s F Q P (FMo_imp_body d) (WB_imp_body d)) in H.
+  set (a := set_ptr [[]] (set_sql [FReal (cur s)] s)) in *.
+  assert (KA : cur a = cur s /\ fs a = fs s /\ fuse a = None /\ ptr a = [[]] /\ sql a = [FReal (cur s)]) by (repeat split; auto).
+  destruct KA as (K1 & K2 & K3 & K4 & K5). clearbody a.
+  destruct (imp_body d a) as [s2 r2] eqn:E.
+  unfold imp_body in E. unfold bind at 1 in E. rewrite (ev_nf _ a K3) in E. unfold guard at 1 in E.
+  destruct (negb (has_ds d a) || mem d (xf (cur a))) eqn:G.
+  2:{ inversion E; subst. rewrite K4 in H. simpl in H. inversion H; subst. simpl. unfold DI, DIc; simpl. rewrite K2. repeat split; auto; apply HDI. }
+  unfold bind at 1, upd at 1 in E. unfold with_ds in E.
+  set (b := set_ptr ([] :: ptr (on_cur (fun x => up_xf (add d) (up_ds (add d) x)) a)) (on_cur (fun x => up_xf (add d) (up_ds (add d) x)) a)) in *.
+  assert (FB : fuse b = None) by exact K3.
+  rewrite (imp_chain_nf d b [] (ptr (on_cur (fun x => up_xf (add d) (up_ds (add d) x)) a)) FB eq_refl) in E.
+  destruct (imp_guard d b) eqn:IG.
+  - unfold b in E. simpl in E. rewrite K4 in E. simpl in E. inversion E; subst. inversion H; subst. simpl.
+    unfold DI; simpl. rewrite K1, K2.
+    split; [|repeat split; auto]. apply (DIc_ext (up_recs (add d) (up_loc (add d) (up_ds (add d) (cur s))))); try reflexivity.
+    apply (DIc_stored d (src_content d) _ _ HDI).
+  - unfold b in E. simpl in E. inversion E; subst. simpl in H. rewrite K4 in H. simpl in H. inversion H; subst. simpl.
+    unfold DI; simpl. rewrite K2. split; [|repeat split; auto].
+    apply (DIc_shrink _ (fs s)); [exact HDI | apply frm_fset_shrink].
+Qed.
+
 (* ---- fuse = None is stable under every operation *)
 Lemma FMo_do_empty_trash : FMo (do_empty_trash shipped).
 Proof.
@@ -329,6 +398,7 @@ Proof.
   - destruct (unstore_DI_p d s s' r Q HDI H (not_fired_honest _ _ _ F)) as (D' & _). split; [exact D' | repeat split; auto].
   - destruct (empty_trash_DI_p s s' r Q HDI H (not_fired_honest _ _ _ F)) as (D' & _). split; [exact D' | repeat split; auto].
   - apply (transfer_nofault_DI d s s' r); assumption.
+  - apply (import_nofault_DI d s s' r); assumption.
 Qed.
 
 (* committed histories of top-level operations (removals included), each run fault-free, failures ignored: exactly the
